@@ -15,10 +15,12 @@ package main
 
 import (
 	"fmt"
+	"math"
 	"os"
 	"runtime/debug"
 	"sort"
 	"strconv"
+	"strings"
 	"sync"
 	"time"
 
@@ -548,6 +550,57 @@ func (d *preemptDrv) apply(op jm) {
 		if len(line["marked"].([]string)) > 0 {
 			c.stat("quota-marked")
 		}
+	case "quotaseq":
+		// a history of configuration updates of one queue (maximum and quota.preemption.delay), clock advances and
+		// quota preemption attempts; after every step: is a start time scheduled, how far away is it, did it fire
+		qi := int(jsonInt(op["q"]))
+		q := w.queues[qi]
+		hasChild := !q.IsLeafQueue()
+		trace := []jm{}
+		for _, e := range arr(op["steps"]) {
+			st := e.(map[string]interface{})
+			ent := jm{}
+			switch jsonStr(st["kind"]) {
+			case "conf":
+				conf := qConf(w.qspecs[qi], hasChild)
+				conf.Resources.Max = confMap(decRes(st["max"]))
+				if conf.Properties == nil {
+					conf.Properties = map[string]string{}
+				}
+				if d := jsonStr(st["delay"]); d != "" {
+					conf.Properties[configs.QuotaPreemptionDelay] = d
+				}
+				oldMax, err := q.ApplyConf(conf)
+				if err != nil {
+					panic(err)
+				}
+				q.UpdateQueueProperties(oldMax)
+			case "advance":
+				for _, x := range w.queues {
+					x.VerifAdvanceQuotaPreemptionClock(time.Duration(jsonInt(st["sec"])) * time.Second)
+				}
+			case "try":
+				before := !q.VerifQuotaPreemptionStart().IsZero()
+				w.queues[0].VerifTryQuotaPreemptionSync()
+				fired := before && q.VerifQuotaPreemptionStart().IsZero()
+				ent["fired"] = fired
+				if fired {
+					c.stat("quotaseq-fired")
+				}
+			default:
+				panic("unknown step")
+			}
+			t := q.VerifQuotaPreemptionStart()
+			ent["startSet"] = !t.IsZero()
+			if !t.IsZero() {
+				ent["rem"] = int64(math.Round(time.Until(t).Seconds()))
+				c.stat("quotaseq-scheduled")
+			}
+			ent["max"] = encRes(q.VerifMaxResourceRaw())
+			trace = append(trace, ent)
+		}
+		line["trace"] = trace
+		w.effects(line)
 	default:
 		panic("unknown op " + name)
 	}
@@ -555,6 +608,62 @@ func (d *preemptDrv) apply(op jm) {
 }
 
 // ---------------------------------------------------------------- generator
+
+// genQuotaSteps: 3..8 steps over one queue with the given usage: configuration updates (maximum high above the usage,
+// below it, lowered again, raised again, incomparable, removed; delay removed, 10m..2h, larger / smaller / equal),
+// clock advances and attempts
+func (c *Ctx) genQuotaSteps(usage *resources.Resource) []interface{} {
+	keys := []string{}
+	for _, k := range pKeys {
+		if usage.Resources[k] >= 3 {
+			keys = append(keys, k)
+		}
+	}
+	mk := func(f func(k string, u int64) int64) interface{} {
+		r := resources.NewResource()
+		for _, k := range keys {
+			if v := f(k, int64(usage.Resources[k])); v > 0 {
+				r.Resources[k] = resources.Quantity(v)
+			}
+		}
+		if len(r.Resources) == 0 {
+			r.Resources["cpu"] = 1
+		}
+		return encRes(r)
+	}
+	high := mk(func(k string, u int64) int64 { return u + 5 })
+	lowA := mk(func(k string, u int64) int64 { return u - 1 })
+	lowB := mk(func(k string, u int64) int64 { return u - 2 })
+	first := ""
+	if len(keys) > 0 {
+		first = keys[0]
+	}
+	incomp := mk(func(k string, u int64) int64 {
+		if k == first {
+			return u - 2
+		}
+		return u
+	})
+	if len(keys) < 2 {
+		incomp = lowB
+	}
+	maxes := []interface{}{high, lowA, lowB, lowA, lowB, incomp, nil}
+	delays := []string{"", "10m", "10m", "30m", "1h", "2h"}
+	steps := []interface{}{jm{"kind": "conf", "max": high, "delay": delays[c.pick(len(delays))]}}
+	n := 2 + c.pick(6)
+	for i := 0; i < n; i++ {
+		switch p := c.pick(10); {
+		case p < 5:
+			steps = append(steps, jm{"kind": "conf", "max": maxes[c.pick(len(maxes))], "delay": delays[c.pick(len(delays))]})
+		case p < 8:
+			steps = append(steps, jm{"kind": "advance", "sec": []int{0, 300, 600, 1200, 1800, 3600, 7200, 20000}[c.pick(8)]})
+		default:
+			steps = append(steps, jm{"kind": "try"})
+		}
+	}
+	steps = append(steps, jm{"kind": "try"})
+	return steps
+}
 
 var pKeys = []string{"cpu", "mem", "gpu"}
 
@@ -572,6 +681,20 @@ func (c *Ctx) posVec(lo, hi int, pGpu float64, sparse float64) *resources.Resour
 		r.Resources[pKeys[c.pick(2)]] = resources.Quantity(lo + c.pick(hi-lo+1))
 	}
 	return r
+}
+
+// spell writes a property value in mixed case now and then (the conversions are case-insensitive)
+func (c *Ctx) spell(v string) string {
+	switch p := c.pick(10); {
+	case p < 6:
+		return v
+	case p < 8:
+		return strings.ToUpper(v[:1]) + v[1:]
+	case p < 9:
+		return strings.ToUpper(v)
+	default:
+		return v[:len(v)-1] + strings.ToUpper(v[len(v)-1:])
+	}
 }
 
 var qNames = []string{"a", "ab", "b", "a1", "c"}
@@ -686,23 +809,42 @@ func genWorld(c *Ctx) jm {
 			default:
 				m["cmax"] = encRes(c.posVec(3, 14, 0.2, 0.3))
 			}
-			switch p := c.pick(10); {
-			case p < 6:
-			case p < 8:
-				props[configs.PreemptionPolicy] = "fence"
-			case p < 9:
-				props[configs.PreemptionPolicy] = "disabled"
+			switch p := c.pick(20); {
+			case p < 11:
+			case p < 15:
+				props[configs.PreemptionPolicy] = c.spell("fence")
+			case p < 18:
+				props[configs.PreemptionPolicy] = c.spell("disabled")
 			default:
-				props[configs.PreemptionPolicy] = "default"
+				props[configs.PreemptionPolicy] = c.spell("default")
 			}
 			if c.chance(0.3) {
-				props[configs.PriorityPolicy] = "fence"
+				props[configs.PriorityPolicy] = c.spell("fence")
+			} else if c.chance(0.05) {
+				props[configs.PriorityPolicy] = c.spell("default")
 			}
 			if c.chance(0.45) {
 				props[configs.PriorityOffset] = strconv.Itoa(c.pick(7) - 3)
 			}
-			if q.kids == 0 && c.chance(0.5) {
+			// a delay on a parent is inherited by the leaves below it
+			if (q.kids == 0 && c.chance(0.5)) || (q.kids > 0 && c.chance(0.25)) {
 				props[configs.PreemptionDelay] = []string{"10s", "60s", "300s"}[c.pick(3)]
+			}
+		} else {
+			// the root: offsets count on the way up; policies are handed down (filtered) to every queue
+			if c.chance(0.2) {
+				props[configs.PriorityOffset] = strconv.Itoa(c.pick(5) - 2)
+			}
+			if c.chance(0.04) {
+				props[configs.PreemptionPolicy] = c.spell("disabled")
+			} else if c.chance(0.05) {
+				props[configs.PreemptionPolicy] = c.spell("fence")
+			}
+			if c.chance(0.05) {
+				props[configs.PriorityPolicy] = c.spell("fence")
+			}
+			if c.chance(0.1) {
+				props[configs.PreemptionDelay] = []string{"10s", "60s"}[c.pick(2)]
 			}
 		}
 		m["props"] = props
@@ -861,6 +1003,29 @@ func runPreempt(c *Ctx) {
 			}
 			// a 1ms delay is always waited for (not waiting would race with the clock); "delay not elapsed" is the 1h case
 			d.apply(jm{"op": "quota", "q": qi, "max": encRes(nm), "delay": delay, "wait": delay == "1ms" || c.chance(0.5)})
+		}
+		// a history of quota changes on a queue that uses something
+		if len(qs) > 1 {
+			usage := make([]*resources.Resource, len(qs))
+			for j := range qs {
+				usage[j] = resources.NewResource()
+			}
+			for _, e := range arr(world["allocs"]) {
+				m := e.(map[string]interface{})
+				for k := int(jsonInt(m["q"])); ; {
+					usage[k].AddTo(decRes(m["res"]))
+					pm := qs[k].(map[string]interface{})["parent"]
+					if pm == nil {
+						break
+					}
+					k = int(jsonInt(pm))
+				}
+			}
+			qi := 1 + c.pick(len(qs)-1)
+			for t := 0; t < 4 && len(usage[qi].Resources) == 0; t++ {
+				qi = 1 + c.pick(len(qs)-1)
+			}
+			d.apply(jm{"op": "quotaseq", "q": qi, "steps": c.genQuotaSteps(usage[qi])})
 		}
 	}
 }
